@@ -460,6 +460,9 @@ func c20Run(c *fw.Ctx) {
 	if c.Shard == 2%c.NShards {
 		c20ConfiguredCodes(c)
 	}
+	if c.Shard == 3%c.NShards {
+		c20AfterFailedFirstStart(c)
+	}
 	<-done
 }
 
@@ -502,6 +505,44 @@ func c20ConfiguredCodes(c *fw.Ctx) {
 		os.RemoveAll(dir)
 		c.Class("configured-code")
 	}
+}
+
+// c20AfterFailedFirstStart: the very first start on a storage is made with a configuration mistake (two accessories
+// ask for the same explicit id) — whether the library starts anyway or refuses, the corrected starts that follow on the
+// same storage have ONE identity, keep it, and the accessory is discoverable (nobody has paired).
+func c20AfterFailedFirstStart(c *fw.Ctx) {
+	c.Eval(1)
+	cas := c20Case{Hist: []string{"first-start-with-duplicate-ids"}}
+	dir := filepath.Join(c.Scratch, fmt.Sprintf("c20d-%d", atomic.AddInt64(&bedSeq, 1)))
+	defer os.RemoveAll(dir)
+	if b, err := newBed(c, bedOpt{Dir: dir, Variant: "duplicate-ids"}); err == nil {
+		b.CloseKeepNoWait()
+	}
+	var firstID string
+	var firstKey []byte
+	for run := 0; run < 2; run++ {
+		b, err := newBed(c, bedOpt{Dir: dir})
+		if err != nil {
+			c.Report("after-failed-first-start/does-not-start", "the corrected configuration does not start on the storage of the failed first start: "+err.Error(), cas)
+			return
+		}
+		txt := b.W.T.VerifTxtRecords()
+		database, _ := dbOpen(dir)
+		es, _ := database.Entities()
+		switch {
+		case run == 0:
+			firstID, firstKey = txt["id"], b.AccLTPK
+		case txt["id"] != firstID || !bytes.Equal(b.AccLTPK, firstKey):
+			c.Report("after-failed-first-start/identity-changed", fmt.Sprintf("device id %q / key changed to %q between two starts after a failed first start", firstID, txt["id"]), cas)
+		}
+		if txt["sf"] != "1" || len(es) != 1 {
+			c.Report("after-failed-first-start/left-overs", fmt.Sprintf("after a failed first start the storage holds %d entities and the accessory advertises sf=%s although nobody has paired", len(es), txt["sf"]), cas)
+			b.CloseKeepNoWait()
+			return
+		}
+		b.CloseKeepNoWait()
+	}
+	c.Class("after-failed-first-start")
 }
 
 // c20Provisioned: a storage that was not written by this build — the files of an accessory identity as an earlier
@@ -625,7 +666,7 @@ func init() {
 	fw.Register(&fw.Check{
 		ID:    "C20",
 		Level: "model_checking",
-		Rule:  "(a) every history of length 3 (quick) / 4 (thorough) after an initial start over {restart with the same accessories, restart with changed values only, restart with an added accessory, restart with another setup code, real pair-setup of a new controller, remove a pairing, add a new pairing and add an existing pairing again through /pairings on a verified connection, application value changes} on one storage directory with the real transport; after EVERY event the advertised TXT records and the store are compared with the reference model: device id and long-term key constant (a stored controller still verifies against the original accessory key), pairings = model set, c# +1 exactly when the structure differs from the previous run, sf=1 ⇔ no controller pairing. plus a sweep over 240 structurally different accessory sets (restart same ⇒ c# unchanged, other ⇒ +1, again ⇒ unchanged). (b) ALL 10^8 eight-digit codes and all ≈12 million strings of length ≤9 over {0,9,a,-,space,non-ASCII digit}: ValidatePin accepts exactly the non-trivial eight-digit codes and formats XXX-XX-XXX; for all 10^8 codes (category 5, IP flag) and for all 256 categories × 16 flag sets × 7 setup ids × 7 boundary codes an independent base-36 decoder recovers code, category, flags and setup id from XHMURI. states = restart histories executed The alphabet also has the removal of a pairing that is not stored; the value-only restart gives a first value to a readable characteristic that had none; every history of length 3 over {restart same, restart with other values, pair-setup of a controller whose identifier is the empty string, remove pairing, restart after the files 'version' and 'configHash' were lost (configuration number then not judged)}; a transport is created exactly for the Config.Pin values ValidatePin accepts and uses that code (16 spellings); a start on storages provisioned elsewhere (device id in lower, upper and mixed case with its key pair and one pairing) keeps id and key and lets the paired controller verify; every history of length 2 over four symbols is repeated in storage directories named 'Lamp [1]', 'Bridge [attic' and 'a*b?'. Plus, in a subprocess built with a scheduling point before EVERY statement of hc's packages (textual insertion through go build -overlay): every interleaving with at most 1 (thorough 2) preemptions of pairs of operations on disjoint objects — and, where the property is about served requests, of pairs of handlers on two verified connections of one accessory touching different characteristics — each side must observe exactly what it observes when the two run one after the other (module-level mutable state is what makes them differ).",
+		Rule:  "(a) every history of length 3 (quick) / 4 (thorough) after an initial start over {restart with the same accessories, restart with changed values only, restart with an added accessory, restart with another setup code, real pair-setup of a new controller, remove a pairing, add a new pairing and add an existing pairing again through /pairings on a verified connection, application value changes} on one storage directory with the real transport; after EVERY event the advertised TXT records and the store are compared with the reference model: device id and long-term key constant (a stored controller still verifies against the original accessory key), pairings = model set, c# +1 exactly when the structure differs from the previous run, sf=1 ⇔ no controller pairing. plus a sweep over 240 structurally different accessory sets (restart same ⇒ c# unchanged, other ⇒ +1, again ⇒ unchanged). (b) ALL 10^8 eight-digit codes and all ≈12 million strings of length ≤9 over {0,9,a,-,space,non-ASCII digit}: ValidatePin accepts exactly the non-trivial eight-digit codes and formats XXX-XX-XXX; for all 10^8 codes (category 5, IP flag) and for all 256 categories × 16 flag sets × 7 setup ids × 7 boundary codes an independent base-36 decoder recovers code, category, flags and setup id from XHMURI. states = restart histories executed The alphabet also has the removal of a pairing that is not stored; the value-only restart gives a first value to a readable characteristic that had none; every history of length 3 over {restart same, restart with other values, pair-setup of a controller whose identifier is the empty string, remove pairing, restart after the files 'version' and 'configHash' were lost (configuration number then not judged)}; a transport is created exactly for the Config.Pin values ValidatePin accepts and uses that code (16 spellings); corrected starts after a first start with a configuration mistake (two accessories asking for one id) have one identity and are discoverable; a start on storages provisioned elsewhere (device id in lower, upper and mixed case with its key pair and one pairing) keeps id and key and lets the paired controller verify; every history of length 2 over four symbols is repeated in storage directories named 'Lamp [1]', 'Bridge [attic' and 'a*b?'. Plus, in a subprocess built with a scheduling point before EVERY statement of hc's packages (textual insertion through go build -overlay): every interleaving with at most 1 (thorough 2) preemptions of pairs of operations on disjoint objects — and, where the property is about served requests, of pairs of handlers on two verified connections of one accessory touching different characteristics — each side must observe exactly what it observes when the two run one after the other (module-level mutable state is what makes them differ).",
 		Run:   c20Run,
 		Replay: func(c *fw.Ctx, raw json.RawMessage) {
 			var cc c20CodeCase
@@ -643,6 +684,10 @@ func init() {
 			}
 			var cas c20Case
 			json.Unmarshal(raw, &cas)
+			if len(cas.Hist) == 1 && cas.Hist[0] == "first-start-with-duplicate-ids" {
+				c20AfterFailedFirstStart(c)
+				return
+			}
 			if len(cas.Hist) == 1 && strings.HasPrefix(cas.Hist[0], "provisioned:") {
 				c20Provisioned(c)
 				return
